@@ -267,6 +267,29 @@ class FnText:
         pos = self.stok(k).start
         self.edits.append((pos, pos, '\n' + text.rstrip() + '\n', origin))
 
+    def add_loopend(self, n, text, origin):
+        ls = self.loops()
+        if n > len(ls):
+            raise Unsupported(f'{self.name}: @loopend {n}: function has {len(ls)} loops')
+        k = self.loop_body_open(ls[n - 1])
+        c = self.match(k)
+        pos = self.stok(c).start
+        self.edits.append((pos, pos, '\n' + text.rstrip() + '\n', origin))
+
+    def add_loopstart(self, n, text, origin):
+        ls = self.loops()
+        if n > len(ls):
+            raise Unsupported(f'{self.name}: @loopstart {n}: function has {len(ls)} loops')
+        k = self.loop_body_open(ls[n - 1])
+        pos = self.stok(k).end
+        self.edits.append((pos, pos, '\n' + text.rstrip() + '\n', origin))
+
+    def add_end(self, text, origin):
+        self.edits.append((self.body_close, self.body_close, '\n' + text.rstrip() + '\n', origin))
+
+    def add_start(self, text, origin):
+        self.edits.append((self.body_open + 1, self.body_open + 1, '\n' + text.rstrip() + '\n', origin))
+
     def loopvar(self, n, name):
         ls = self.loops()
         if n > len(ls):
@@ -581,6 +604,18 @@ def process_extract(block_text, tmpl_path, tmpl_line, report):
         elif d == 'loop':
             ft.add_loop(int(arg), payload, origin)
             info['clauses'] += count_clauses(payload)
+        elif d == 'loopend':
+            ft.add_loopend(int(arg), payload, origin)
+            info['clauses'] += count_clauses(payload)
+        elif d == 'loopstart':
+            ft.add_loopstart(int(arg), payload, origin)
+            info['clauses'] += count_clauses(payload)
+        elif d == 'end':
+            ft.add_end(payload, origin)
+            info['clauses'] += count_clauses(payload)
+        elif d == 'start':
+            ft.add_start(payload, origin)
+            info['clauses'] += count_clauses(payload)
         elif d == 'loopvar':
             n, nm = arg.split()
             ft.loopvar(int(n), nm)
@@ -601,6 +636,55 @@ def process_extract(block_text, tmpl_path, tmpl_line, report):
     return ft.render(), info
 
 
+def strip_wrapper(ty, name):
+    """remove every `name< ... >` wrapper (keeping the inner type) from a type string"""
+    while True:
+        m = re.search(r'(?<![A-Za-z0-9_:])(?:std::sync::)?' + name + r'\s*<', ty)
+        if not m:
+            return ty
+        i = m.end()
+        depth = 1
+        while depth:
+            if ty[i] == '<':
+                depth += 1
+            elif ty[i] == '>':
+                depth -= 1
+            i += 1
+        ty = ty[:m.start()] + ty[m.end():i - 1] + ty[i:]
+
+
+def gen_dbstruct(fields):
+    """T6: the FixtureDatabase struct regenerated from src/fixtures/mod.rs for the requested fields:
+    Arc<..> and Mutex<..> wrappers stripped, type aliases expanded, AtomicU64 -> prelude shim."""
+    src = open(os.path.join(REPO, 'src/fixtures/mod.rs'), encoding='utf-8').read()
+    m = re.search(r'pub struct FixtureDatabase\s*\{', src)
+    if not m:
+        raise Unsupported('struct FixtureDatabase not found in mod.rs')
+    toks = tokenize(src[m.end() - 1:])
+    close = match_close(toks, 0)
+    body = src[m.end():m.end() - 1 + toks[close].start]
+    aliases = dict(re.findall(r'^type\s+(\w+)\s*=\s*(.*?);', src, re.M | re.S))
+    body = re.sub(r'//[^\n]*', '', body)
+    decl = {}
+    for fm in re.finditer(r'pub\s+(\w+)\s*:\s*(.*?),\s*(?=pub\s|\Z)', body, re.S):
+        decl[fm.group(1)] = re.sub(r'\s+', ' ', fm.group(2)).strip()
+    out = ['pub struct FixtureDatabase {']
+    for f in fields:
+        if f not in decl:
+            raise Unsupported(f'FixtureDatabase has no field {f}')
+        ty = decl[f]
+        for _ in range(3):
+            for a, b in aliases.items():
+                ty = re.sub(r'\b' + a + r'\b', re.sub(r'\s+', ' ', b), ty)
+        ty = strip_wrapper(ty, 'Arc')
+        ty = strip_wrapper(ty, 'Mutex')
+        ty = ty.replace('std::sync::atomic::AtomicU64', 'AtomicU64').replace('types::', '')
+        out.append(f'    pub {f}: {ty},')
+    out.append('}')
+    return '\n'.join(out) + '\n'
+
+
+DBSTRUCT_RE = re.compile(r'^[ \t]*//@dbstruct[ \t]+(.*)$', re.M)
 EXTRACT_RE = re.compile(r'/\*@\s*extract\s+(.*?)@\*/', re.S)
 INCLUDE_RE = re.compile(r'^[ \t]*//@include[ \t]+(\S+)[ \t]*$', re.M)
 
@@ -627,6 +711,7 @@ def generate(tmpl_path, out_path):
     raw = open(tmpl_path).read()
     # includes first (they may not contain extract blocks with line-mapped origins we care about)
     text = expand_includes(raw)
+    text = DBSTRUCT_RE.sub(lambda m: '// T6: generated from src/fixtures/mod.rs\n' + gen_dbstruct(m.group(1).split()), text)
     pieces = []
     pos = 0
     for m in EXTRACT_RE.finditer(text):
